@@ -2,4 +2,4 @@
 Assembled from the scheduler parts: mq (RR, WRR) and drr (DRR)."""
 from vlib.composite import Composite
 
-PROP = Composite("C15", ["mq", "drr"], n_quick=360, n_thorough=9000)
+PROP = Composite("C15", ["mq", "drr"], extra_props_files=["Props/C15_Examples_RR.v", "Props/C15_Examples_DRR.v"], n_quick=360, n_thorough=9000)
